@@ -95,6 +95,6 @@ package server
 //@   safe
 //@   requires channelsWF(ch.channels)
 //@   callsite OpenConnection#1 (upstreamConnection net.Conn, e error, channel Channel) assert "/"+channel.Name() == protocol && memberCh(ch.channels, channel)   :connects_only_the_requested_configured_channel
-//@   ensures (forall i :: 0 <= i && i < len(ch.channels) ==> protocol != "/"+ch.channels[i].Name()) ==> err != nil && G_opens() == old(G_opens())    :no_outbound_on_refusal
+//@   ensures (forall i :: 0 <= i && i < len(old(ch.channels)) ==> protocol != "/"+old(ch.channels)[i].Name()) ==> err != nil && G_opens() == old(G_opens())    :no_outbound_on_refusal
 //@   loop 1 vars iter int, rng Channels
 //@   loop 1 invariant G_opens() == old(G_opens()) && (forall j :: 0 <= j && j < iter ==> protocol != "/"+rng[j].Name())
